@@ -192,9 +192,9 @@ def check_after(ck, rule, inst, site, make, pre, f, stubs=None, max_paths=48, st
             ctx = make(it)
             if with_pre:
                 pre(it, ctx)
-            k0 = len(it.taken)
+            c0 = len(it.conds)
             r = f(it, ctx)
-            return {"t": snapshot_terms(it, r), "shape": getattr(r, "shape", None), "decisions": len(it.taken) - k0, "conds": list(it.conds)}
+            return {"t": snapshot_terms(it, r), "shape": getattr(r, "shape", None), "fconds": [(c[0], c[1]) for c in it.conds[c0:]], "conds": list(it.conds)}
 
         return [p for p in paths_of(prog, th, max_paths=max_paths, sticky=sticky, stubs=stubs) if p.outcome == "return"]
 
@@ -226,13 +226,14 @@ def check_after(ck, rule, inst, site, make, pre, f, stubs=None, max_paths=48, st
                 ck.ok(rule, name, site)
                 continue
             v = cands[0]
-            extra = rec["decisions"] - v["decisions"]
+            # conditions met for the first time inside the call (not while it ran alone): what the reuse of earlier state hinges on
+            extra = [c for c in rec["fconds"] if c not in v["fconds"]]
             sa_, sb_ = rec["shape"], v["shape"]
             shape_differs = sa_ is not None and sb_ is not None and (len(sa_) != len(sb_) or any(x != y and "?" not in (str(x), str(y)) for x, y in zip(sa_, sb_)))
-            if extra <= 0 and all(x is not None for x in a2):
+            if not extra and all(x is not None for x in a2):
                 ck.violation(rule, name, site, "after the preceding calls the result is %s; on its own the same call gives %s: state carried over from earlier calls changes the result"
                              % (str(a2[0])[:140], str(_flat(v["t"])[0])[:140]), key="%s|%s|order" % (rule, inst))
             elif shape_differs:
                 ck.violation(rule, name, site, "after the preceding calls the result has shape %s instead of %s" % (sa_, sb_), key="%s|%s|order-shape" % (rule, inst))
             else:
-                ck.undecided(rule, name, site, "after the preceding calls the result may differ (%s); this depends on conditions the analyser cannot evaluate" % (str(a2[0])[:120],))
+                ck.undecided(rule, name, site, "after the preceding calls the result may differ (%s); this depends on %s, which the analyser cannot evaluate" % (str(a2[0])[:100], [c[1][:50] for c in extra][:2]))
